@@ -476,7 +476,11 @@ impl<KT: DbMapKeyType> VarFileKeyCache<KT> {
         // add new.
         {
             let free_piece_offset = self.0.pop_free_piece_list(new_piece_size)?;
+            let mut new_piece_size = new_piece_size;
             let new_piece_offset = if !free_piece_offset.is_zero() {
+                // the reused piece may be larger, keep its size.
+                self.0.seek_from_start(free_piece_offset)?;
+                new_piece_size = self.0.read_piece_size()?;
                 self.0.seek_from_start(free_piece_offset)?;
                 free_piece_offset
             } else {
